@@ -189,7 +189,13 @@ def Rd.read (r : Rd) (s : Src) (cx : Ctx) (k : Nat)
         else if r2.fragmented then some (bytes, n, none, r2.resetFragment, s2, cx1)
         else if r2.checkUTF8 && !r2.utf8.valid then some (bytes, r2.utf8.accepted, some .utf8, r2, s2, cx1)
         else some (bytes, n, some .eof, r2.reset, s2, cx1)
-      | some e => some (bytes, n, some e, r2, s2, cx1)
+      | some e =>
+        -- the transport failed while handing over the LAST bytes of a text message that does not end on a
+        -- character boundary: the verdict on the text stands (helpers like io.ReadFull drop an error
+        -- that comes with the bytes that fill their buffer)
+        if e != .utf8 && r2.rawN == 0 && !r2.fragmented && r2.checkUTF8 && !r2.utf8.valid then
+          some (bytes, r2.utf8.accepted, some .utf8, r2, s2, cx1)
+        else some (bytes, n, some e, r2, s2, cx1)
 
 /-- Reader.Discard. -/
 def Rd.discard (r : Rd) (s : Src) (cx : Ctx) (onInter : Option Callback) :
